@@ -16,6 +16,7 @@ import (
 	"golang.org/x/tools/go/ssa"
 
 	"verif/contract"
+	"verif/frame"
 	"verif/load"
 	"verif/run"
 	"verif/smt"
@@ -81,6 +82,7 @@ type Gen struct {
 	Unverified []string // the "not covered" column of DESIGN.md §0
 	Assumptions []string
 	Extra     map[string]interface{}
+	Static    []frame.Result // obligations discharged by SSA data-flow
 }
 
 func newGen() *Gen {
@@ -223,6 +225,14 @@ func Run(id, repo, verif, tier string, seed int, writeBaseline bool) int {
 		}
 	}
 	res := run.Discharge(g.Jobs, env.Timeout, seed, 12)
+	for _, sr := range g.Static {
+		o := &symex.Obligation{Name: sr.Name, Kind: "dataflow", Func: sr.Func, Pos: sr.Pos, Goal: "ssa-dataflow"}
+		st := smt.Unsat
+		if !sr.OK {
+			st = smt.Sat
+		}
+		res = append(res, run.Result{Obl: o, Status: st, Solver: "ssa-dataflow", Output: sr.Detail})
+	}
 
 	// group results by stable name
 	type group struct {
@@ -261,7 +271,7 @@ func Run(id, repo, verif, tier string, seed int, writeBaseline bool) int {
 		fmt.Printf("ENGINE ERROR: vacuity guard failed (contradictory assumptions): %s\n", strings.Join(canaryBroken, "; "))
 		return 2
 	}
-	if len(g.Jobs) == 0 {
+	if len(g.Jobs)+len(g.Static) == 0 {
 		fmt.Println("ENGINE ERROR: no obligations generated")
 		return 2
 	}
